@@ -382,9 +382,20 @@ class ThrRunner:
         th = _real_threading.Thread(target=target, daemon=True)
         th.start()
         th.join(HANG_S)
-        if th.is_alive():
-            self.hung = True
-            raise ExecHang(f"exec_jobs did not return within {HANG_S} s of real time (no callback of the scenario blocks)")
+        waited = HANG_S
+        while th.is_alive():
+            # a hang, or only a slow machine? It is a hang when the call is blocked in a wait while no worker of
+            # the pool is alive any more (nobody can ever satisfy the join); otherwise keep waiting (bounded)
+            import sys as _sys
+            workers = [t for t in _real_threading.enumerate() if "_exec_job_worker" in t.name and t.is_alive()]
+            fr = _sys._current_frames().get(th.ident)
+            blocked = fr is not None and fr.f_code.co_name in ("wait", "join", "_wait_for_tstate_lock", "acquire")
+            if (blocked and not workers) or waited >= 40.0:
+                self.hung = True
+                raise ExecHang(f"exec_jobs did not return after {waited:.0f} s of real time: blocked in `{fr.f_code.co_name if fr else '?'}` "
+                               f"with {len(workers)} live workers (no callback of the scenario blocks)")
+            th.join(0.5)
+            waited += 0.5
         if "e" in box:
             raise box["e"]
         return box["n"]
